@@ -527,6 +527,10 @@ func genSrvFlow(p *prng, thorough bool, w *bufio.Writer) {
 				sid := pendingDone[i]
 				pendingDone = append(pendingDone[:i], pendingDone[i+1:]...)
 				sz := []int{0, 1, 9, 10, 11, 100, 16383, 16384, 16385, 40000, 65535, 65536, 100000}[p.intn(13)]
+				if iw > 0 && iw <= 200000 && p.chance(1, 3) {
+					// exactly what the stream window allows, one less, one more: the last octet takes the window to 0
+					sz = int(iw) + p.intn(3) - 1
+				}
 				body := fmt.Sprintf("pat:%d", sz)
 				if sz == 0 {
 					body = "none"
